@@ -6,6 +6,7 @@ import (
 	"fmt"
 	"go/constant"
 	"go/types"
+	"sort"
 	"strings"
 
 	"golang.org/x/tools/go/ssa"
@@ -936,6 +937,19 @@ func (fv *FuncVC) evalCall(env *SpecEnv, x *SCall) Val {
 				return boolVal(Select(mv.C[0], fv.mapKeyTerm(k)))
 			}
 			engineErr("in(k, m): m is %v", mv.T)
+		case "rawget":
+			// rawget(m, k): stored value of key k (unspecified if absent); usable in triggers
+			mv := fv.evalSpec(env, x.Args[0])
+			k := fv.evalSpec(env, x.Args[1])
+			mt, ok := mv.T.Underlying().(*types.Map)
+			if !ok {
+				engineErr("rawget(m, k): m is %v", mv.T)
+			}
+			var cs []string
+			for _, vk := range fv.m.MapValKeys(mt) {
+				cs = append(cs, Select(Select(fv.m.heapGet(fv.stateOf(env, mv), vk), mv.One()), fv.mapKeyTerm(k)))
+			}
+			return Val{T: mt.Elem(), C: cs, St: mv.St}
 		case "typeis":
 			// typeis(x, T): dynamic type of interface value x is T
 			v := fv.evalSpec(env, x.Args[0])
@@ -969,10 +983,21 @@ func (fv *FuncVC) evalCall(env *SpecEnv, x *SCall) Val {
 			return Val{T: types.Typ[types.Float64], C: []string{toReal(v.C[0])}}
 		case "unchanged":
 			// unchanged(T::f, ...) heap arrays equal to their entry versions
+			// every object that existed at entry has its entry content (objects allocated since are not constrained)
 			var es []string
 			for _, a := range x.Args {
 				for _, hk := range fv.readKeys(specExprText(a), env.pkg) {
-					es = append(es, Eq(fv.m.heapGet(env.cur, hk), fv.m.heapGet(env.old, hk)))
+					cur, old := fv.m.heapGet(env.cur, hk), fv.m.heapGet(env.old, hk)
+					if cur == old {
+						continue
+					}
+					if strings.HasPrefix(string(hk.Sort), "(Array Int ") {
+						fv.ctx.nfresh++
+						r := fmt.Sprintf("r!q%d", fv.ctx.nfresh)
+						es = append(es, fmt.Sprintf("(forall ((%s Int)) (! (=> (< %s %s) (= (select %s %s) (select %s %s))) :pattern ((select %s %s))))", r, r, env.old.cnt, cur, r, old, r, cur, r))
+					} else {
+						es = append(es, Eq(cur, old))
+					}
 				}
 			}
 			return boolVal(And(es...))
@@ -1157,6 +1182,15 @@ func (fv *FuncVC) applyPure(env *SpecEnv, pd *PureDef, argExprs []SExpr) Val {
 		}
 		args = append(args, v)
 	}
+	if pd.Body != nil && pd.Opaque && !fv.reveals(pd.Name) {
+		// opaque predicate: an uninterpreted function of its arguments and of the heap arrays its body reads
+		keys := fv.footprint(pd, pkg, args)
+		rt, err := fv.v.ResolveType(pd.Ret, pkg)
+		if err != nil {
+			engineErr("%s: %v", pd.Name, err)
+		}
+		return fv.pureAppKeys(env.cur, "sp$"+pd.Name, keys, args, rt)
+	}
 	if pd.Body != nil {
 		// macro expansion
 		// hygiene: the macro body sees its parameters, not bound variables of the call site with the same names
@@ -1311,4 +1345,83 @@ func (fv *FuncVC) checkPost(fr *Frame, b *ssa.BasicBlock, st *State, reach strin
 		fv.oblige("refine", clauseLabel(e), reach, t, e.Text, pos)
 	}
 	fv.retReach = append(fv.retReach, reach)
+}
+
+func (fv *FuncVC) reveals(name string) bool {
+	for _, r := range fv.revealed {
+		if r == name {
+			return true
+		}
+	}
+	return false
+}
+
+// footprint: the heap keys the body of an opaque predicate reads (computed by evaluating the body once
+// on placeholder arguments with read-recording on), in a fixed order.
+func (fv *FuncVC) footprint(pd *PureDef, pkg *types.Package, args []Val) []HeapKey {
+	if ks, ok := fv.footprints[pd.Name]; ok {
+		return ks
+	}
+	saved := fv.m.recording
+	rec := map[string]HeapKey{}
+	fv.m.recording = rec
+	fv.binderDepth++ // no facts while evaluating on placeholders
+	scratch := &State{heap: map[string]string{}, epoch: 0, cnt: "cnt0", ghost: map[string]Val{}}
+	ne := &SpecEnv{fv: fv, names: map[string]Val{}, cur: scratch, old: scratch, pkg: pkg, bound: map[string]Val{}}
+	for i, p := range pd.Params {
+		ph := Val{T: args[i].T, C: make([]string, len(args[i].C))}
+		cs := fv.m.Flatten(args[i].T)
+		for j := range ph.C {
+			ph.C[j] = fv.ctx.Fresh("ph."+pd.Name, cs[j].Sort)
+		}
+		ne.names[p.Name] = ph
+	}
+	func() {
+		defer func() {
+			fv.binderDepth--
+			fv.m.recording = saved
+		}()
+		fv.evalSpec(ne, pd.Body)
+	}()
+	var names []string
+	for k := range rec {
+		names = append(names, k)
+	}
+	sort.Strings(names)
+	ks := make([]HeapKey, 0, len(names))
+	for _, n := range names {
+		ks = append(ks, rec[n])
+		if saved != nil {
+			saved[n] = rec[n]
+		}
+	}
+	if fv.footprints == nil {
+		fv.footprints = map[string][]HeapKey{}
+	}
+	fv.footprints[pd.Name] = ks
+	return ks
+}
+
+func (fv *FuncVC) pureAppKeys(st *State, base string, keys []HeapKey, args []Val, rt types.Type) Val {
+	var as []string
+	var sorts []Sort
+	for _, a := range args {
+		cs := fv.m.Flatten(a.T)
+		for i, c := range a.C {
+			as = append(as, c)
+			sorts = append(sorts, cs[i].Sort)
+		}
+	}
+	for _, hk := range keys {
+		as = append(as, fv.m.heapGet(st, hk))
+		sorts = append(sorts, hk.Sort)
+	}
+	cs := fv.m.Flatten(rt)
+	res := Val{T: rt, C: make([]string, len(cs))}
+	for i, c := range cs {
+		name := fmt.Sprintf("%s%s", base, sanitize(c.Path))
+		fv.ctx.Decl(name, sorts, c.Sort)
+		res.C[i] = App(name, as...)
+	}
+	return res
 }
